@@ -51,7 +51,7 @@ def run(ctx):
     ctx.assume('photometry = truth SED through the exact-rational reference convolution, reddened with an independent extinction interpolation',
                'non-degenerate packages: cases where another model\'s reference chi^2 is within the margin of the planted one are regenerated (counted)',
                'flag-1 points bias the plant by 0.5 e^2/ln10 dex: recovery is compared with the reference fitter on the same data, and the reference with the analytic bound')
-    ctx.require_events('pipeline:run', 'recovered:rank1', 'text-row:checked', 'FitInfo.keep:post', 'Filter.rebin:post', 'FitInfo.filter_table:post',
+    ctx.require_events('text-row:objects-with-other-package-in-between', 'pipeline:run', 'recovered:rank1', 'text-row:checked', 'FitInfo.keep:post', 'Filter.rebin:post', 'FitInfo.filter_table:post',
                        'Source.from_ascii:post', 'Extinction.get_av:post')
     ctx.require_regimes('mode:2d', 'mode:3d', 'style:v1', 'style:v2', 'exact-plant', 'noisy-plant', 'av0:at-bound', 'av0:interior', 'sources-per-file>1', 'plant:with-unused-or-limit-band', '3d:distance-range-not-in-kpc')
     n_pipe = 10 if ctx.quick else 200
@@ -266,6 +266,34 @@ def run(ctx):
             if not ok:
                 ctx.violation('text-row:not-the-planted-models-row', 'the parameter row printed next to the best fit is not the planted model\'s row of the parameter file',
                               dict(wit, line=first_row, expected=[float(params[c][m0]) for c in cols]))
+        # the same through result objects, with a second fitter on another package (same model names, other parameter values)
+        # used before the listing is written: the row printed must still be the planted model's row of *this* package
+        try:
+            import shutil
+            p0 = plants[0]
+            fA = gen.make_fitter([f.name for f in filters], theta, md, law, (lo, hi), dr, use_memmap=False)
+            infoA = fA.fit(gen.build_source(p0['name'], p0['valid'], p0['flux'], p0['err']))
+            md2 = os.path.join(d, 'other_package')
+            shutil.copytree(md, md2)
+            for fn_ in os.listdir(md2):
+                if fn_.startswith('parameters.fits'):
+                    os.remove(os.path.join(md2, fn_))
+            order2 = order if style == 'v2' else list(rng.permutation(n_m))       # (cube packages: the table follows the cube's order)
+            pkg.write_parameters(md2, [names[i] for i in order2], {c_: (np.asarray(params[c_]) * 1.37 + 5.0)[order2] for c_ in params})
+            fB = gen.make_fitter([f.name for f in filters], theta, md2, law, (lo, hi), dr, use_memmap=False)
+            fB.fit(gen.build_source('other', p0['valid'], p0['flux'], p0['err']))
+            txt2 = os.path.join(d, 'pars_objects.txt')
+            write_parameters(infoA, txt2, select_format=('N', 1))
+            rows2 = [l_ for l_ in open(txt2).read().split('\n') if l_.split()[:1] == ['1'] and len(l_.split()) == 5 + len(params)]
+            ctx.event('text-row:objects-with-other-package-in-between')
+            m0 = p0['m0']
+            if str(infoA.model_name[0]).strip() == names[m0]:
+                tok = rows2[0].split() if rows2 else []
+                if not (tok and tok[1] == names[m0] and all(c09.close3e(tok[5 + c], params[col][m0]) for c, col in enumerate(list(params)))):
+                    ctx.violation('text-row:not-the-planted-models-row:objects', 'the parameter row printed next to the best fit (results passed as objects, another package fitted in between) '
+                                  'is not the planted model\'s row of the parameter file', dict(wit1, line=rows2[:1], expected=[float(params[c_][m0]) for c_ in params]))
+        except Exception as exc:
+            ctx.violation('pipeline:raised:objects:%s' % type(exc).__name__, 'the object-interface pipeline raised: %r' % (exc,), wit1)
         c09.CUR.update(params=None)
         ctx.rmdir(d)
     if ip < n_pipe // 2:
